@@ -16,7 +16,7 @@ SUFFIXES = [".html", ".gophermap", ".mbox", ".zip", ".pyg", ".tal", ".txt.gz"]
 SUFFIX_KINDS = ["dangling", "enoent", "vanish"]
 # fault kinds whose stat / open fails: these also get the request repeated within the directory cache's lifetime
 REPEAT_KINDS = {"dangling", "enoent", "eacces", "vanish", "openfail", "stat2fail", "open2fail", "dot-dangling",
-                "dot-dotdot-link", "linkfile-openfail", "sidecar-openfail"}
+                "dot-dotdot-link", "linkfile-openfail", "sidecar-openfail", "touchvanish1", "touchvanish2", "touchvanish3"}
 # the handler chain accepts the child (stat says regular file) but the file-system call it then makes fails:
 # open() for the HTML title, the second stat of a *.gophermap file, ...
 CALL_KINDS = ["openfail:.html", "openfail:.txt", "openfail:.mbox", "stat2fail:.gophermap", "stat2fail:.html",
@@ -34,10 +34,86 @@ DOT_KINDS = ["dot-dangling", "dot-fifo", "dot-socket",
              "dot-dotdot-file", "dot-dotdot-link", "dot-dotdot-dir", "dot-three-dots", "dot-bs-file"]
 CONFIG = {"handlers.dir.DirHandler": {"cachetime": "0"}}
 
+# ---- handler configurations beyond the shipped default ---------------------------------------------------------
+# Which handlers look at a child -- and how deep they look while still deciding whether to take it -- depends on
+# the configured list: the property is about every configuration the server documents.  %DIR% stands for the
+# directory handler (UMN.UMNDirHandler / dir.DirHandler).
+_HEAD = ("url.HTMLURLHandler, gophermap.BuckGophermapHandler, mbox.MaildirFolderHandler, "
+         "mbox.MaildirMessageHandler, %DIR%, ")
+_ZIP_ON = {"handlers.ZIP.ZIPHandler": {"enabled": "true"}}
+CHAINS = {
+    # the documented "full featureset" list (templates, PYG, scripts, decompression, URL rewriting)
+    "full": {"handlers.HandlerMultiplexer": {"handlers": "[" + _HEAD + "tal.TALFileHandler, html.HTMLFileTitleHandler, "
+             "mbox.MBoxMessageHandler, mbox.MBoxFolderHandler, pyg.PYGHandler, scriptexec.ExecHandler, "
+             "file.CompressedFileHandler, file.FileHandler, url.URLTypeRewriter]"}},
+    # the same with archives served as directories
+    "full+zip": dict({"handlers.HandlerMultiplexer": {"handlers": "[" + _HEAD + "tal.TALFileHandler, "
+                      "html.HTMLFileTitleHandler, mbox.MBoxMessageHandler, mbox.MBoxFolderHandler, ZIP.ZIPHandler, "
+                      "pyg.PYGHandler, scriptexec.ExecHandler, file.CompressedFileHandler, file.FileHandler, "
+                      "url.URLTypeRewriter]"}}, **_ZIP_ON),
+    # the shipped default plus archives
+    "default+zip": dict({"handlers.HandlerMultiplexer": {"handlers": "[" + _HEAD + "html.HTMLFileTitleHandler, "
+                         "mbox.MBoxMessageHandler, mbox.MBoxFolderHandler, ZIP.ZIPHandler, file.FileHandler]"}}, **_ZIP_ON),
+    # handlers that look inside a file come first
+    "inspectors-first": dict({"handlers.HandlerMultiplexer": {"handlers": "[ZIP.ZIPHandler, pyg.PYGHandler, "
+                              "mbox.MBoxMessageHandler, mbox.MBoxFolderHandler, tal.TALFileHandler, " + _HEAD +
+                              "html.HTMLFileTitleHandler, scriptexec.ExecHandler, file.CompressedFileHandler, "
+                              "file.FileHandler]"}}, **_ZIP_ON),
+    # scripts only (the UMN emulation list plus scriptexec), archive handler listed but switched off
+    "exec+zip-off": {"handlers.HandlerMultiplexer": {"handlers": "[url.HTMLURLHandler, %DIR%, ZIP.ZIPHandler, "
+                     "html.HTMLFileTitleHandler, mbox.MBoxMessageHandler, mbox.MBoxFolderHandler, "
+                     "scriptexec.ExecHandler, file.CompressedFileHandler, file.FileHandler]"}},
+}
+# children that one of those handlers inspects: suffix -> (content, mode)
+PYG_SOURCE = ("from pygopherd.handlers.pyg import PYGBase\nfrom pygopherd.gopherentry import GopherEntry\n\n\n"
+              "class PYGMain(PYGBase):\n    def canhandlerequest(self):\n        return True\n\n"
+              "    def isdir(self):\n        return False\n\n    def getentry(self):\n"
+              "        entry = GopherEntry(self.selector, self.config)\n        entry.type = \"0\"\n"
+              "        entry.mimetype = \"text/plain\"\n        entry.name = \"A generated page\"\n        return entry\n\n"
+              "    def write(self, wfile):\n        wfile.write(b\"generated\\n\")\n")
 
-def fault_entry(pre, letter, kind):
-    """-> (name, tree entries, stat fault or None | "vanish")"""
+
+def _zip_bytes():
+    import io
+    import zipfile
+    b = io.BytesIO()
+    with zipfile.ZipFile(b, "w") as z:
+        for n, d in (("inside.txt", "x\n"), ("sub/deeper.html", "<html><head><title>T</title></head></html>\n")):
+            zi = zipfile.ZipInfo(n, date_time=(2020, 1, 1, 0, 0, 0))
+            z.writestr(zi, d)
+    return b.getvalue().decode("latin-1")
+
+
+RICH = {
+    ".zip": (_zip_bytes(), None),
+    ".pyg": (PYG_SOURCE, 0o755),
+    ".html.tal": ("<html><head><title tal:content=\"selector\">t</title></head><body>x</body></html>\n", None),
+    ".mbox": ("From alice@example.org Thu Jan  1 00:00:00 2004\nSubject: hello\n\nbody\n\n", None),
+    ".sh": ("#!/bin/sh\necho generated\n", 0o755),
+    ".txt.gz": ("\x1f\x8b\x08\x00\x00\x00\x00\x00\x00\x03\xcb\xc8\xe4\x02\x00\x7a\x7a\x6f\xed\x03\x00\x00\x00", None),
+    ".html": ("<html><head><title>Inspected</title></head></html>\n", None),
+}
+# the faults already injected elsewhere, plus the object really disappearing right after the k-th look at it
+CHAIN_FAULTS = ["openfail", "open2fail", "stat2fail", "stat3fail", "touchvanish1", "touchvanish2", "touchvanish3",
+                "vanish", "enoent", "eacces", "dangling"]
+
+
+def fault_entry(pre, letter, kind, rich=False):
+    """-> (name, tree entries, stat fault or None | "vanish").  rich: the content (and mode) of the faulty file
+    is what its suffix promises (a real archive for .zip, an executable module for .pyg, ...)"""
     kind, suf = (kind.split(":", 1) + [""])[:2]
+    if rich and kind != "dangling":
+        n, ents, sf = fault_entry(pre, letter, kind + ":" + suf)
+        data, mode = RICH[suf]
+        ents[0]["data"] = data
+        if mode is not None:
+            ents[0]["mode"] = mode
+        return n, ents, sf
+    m = re.fullmatch(r"touchvanish(\d+)", kind)
+    if m:
+        # really deleted right after the k-th look the server takes at it
+        n = letter + "fleeting" + (suf or ".txt")
+        return n, [{"path": tp(pre + n), "data": "soon gone\n"}], {"call": "touch", "from": int(m.group(1))}
     if kind == "dangling":
         n = letter + "link" + suf
         return n, [{"path": tp(pre + n), "kind": "symlink", "target": "nowhere-at-all"}], None
@@ -116,7 +192,7 @@ def fault_entry(pre, letter, kind):
     raise ValueError(kind)
 
 
-def scenario(dirsel, faults):
+def scenario(dirsel, faults, rich=False):
     """faults: list of (position, kind)"""
     pre = dirsel.strip("/")
     pre = pre + "/" if pre else ""
@@ -133,7 +209,7 @@ def scenario(dirsel, faults):
     vanish = []
     extra_all = []
     for pos, kind in faults:
-        n, ents, sf = fault_entry(pre, LETTERS[pos], kind)
+        n, ents, sf = fault_entry(pre, LETTERS[pos], kind, rich)
         tree += ents
         names.append(n)
         if kind.split(":")[0] in ("sidecar-openfail", "sidecar-vanished", "subdir-abstract-openfail", "sidecar-fifo",
@@ -176,6 +252,37 @@ def linkfile_scenarios():
             sc["extra_umn"] = extra
             sc["sweep"] = True
             out.append(sc)
+    return out
+
+
+def chain_scenarios(rng, thorough):
+    """Every kind of inspected child x every fault, under every handler configuration of CHAINS (both directory
+    handlers); the tiers differ in the protocols asked and the enumeration orders (see the job list)."""
+    out = []
+    k = 0
+    for i, suf in enumerate(RICH):
+        for j, kind in enumerate(CHAIN_FAULTS):
+            sc = scenario(["/d", "/"][k % 2], [((i + j) % len(LETTERS), kind + ":" + suf)], rich=True)
+            sc["kinds"] = [c + ":" + ch for ch in CHAINS for c in ("umn", "dir")]
+            sc["sweep"] = True
+            sc["chain"] = True
+            out.append(sc)
+            k += 1
+    # control: the same children without any fault are all listed
+    for dirsel in ("/d", "/"):
+        sc = scenario(dirsel, [])
+        pre = dirsel.strip("/")
+        pre = pre + "/" if pre else ""
+        for suf, (data, mode) in RICH.items():
+            e = {"path": pre + "c-plain" + suf, "data": data}
+            if mode is not None:
+                e["mode"] = mode
+            sc["tree"].append(e)
+        sc["extra_all"] = [("" if dirsel == "/" else dirsel) + "/c-plain" + suf for suf in RICH]
+        sc["kinds"] = [c + ":" + ch for ch in CHAINS for c in ("umn", "dir")]
+        sc["sweep"] = True
+        sc["chain"] = True
+        out.append(sc)
     return out
 
 
@@ -231,6 +338,8 @@ def run(tier):
         sc["sweep"] = True      # sweeps over names / suffixes / call faults: three protocol syntaxes are enough
     lfscs = linkfile_scenarios()
     scenarios += lfscs
+    chscs = chain_scenarios(rng, thorough)
+    scenarios += chscs
     pairs = []
     for p1 in range(len(LETTERS)):
         for p2 in range(p1 + 1, len(LETTERS)):
@@ -252,20 +361,27 @@ def run(tier):
     jobs = []
     for sc in scenarios:
         reqs = []
-        allp = thorough or (not sc.get("sweep") and (not sc["faults"] or sc["faults"][0][0] in (0, 2)))
+        # (configuration scenarios run under ten handler configurations each: three protocol syntaxes in both tiers)
+        allp = (thorough and not sc.get("chain")) or (not sc.get("sweep") and (not sc["faults"] or sc["faults"][0][0] in (0, 2)))
         for proto in (gen.PROTOCOLS if allp else ["gopher", "http", "gemini"]):
             data, tls = gen.request_bytes(proto, sc["dir"])
             reqs.append({"data": gen.lat(data), "tls": tls, "proto": proto})
         jobs.append({"op": "c12_faults", "tree": sc["tree"], "dir": sc["dir"], "stat_faults": sc["stat_faults"],
-                     "vanish": sc["vanish"], "call_faults": sc["call_faults"], "real_logger": True, "kinds": ["umn", "dir"], "perms": ["natural", "reversed"], "config": CONFIG,
+                     "vanish": sc["vanish"], "call_faults": sc["call_faults"], "real_logger": True,
+                     "kinds": sc.get("kinds", ["umn", "dir"]), "chains": CHAINS, "restore_from_tree": bool(sc.get("chain")),
+                     "perms": ["natural", "reversed"] if thorough or not sc.get("chain") else ["natural"], "config": CONFIG,
                      "requests": reqs,
-                     "repeat_requests": [q for q in reqs if q["proto"] in ("gopher", "http")]
+                     "repeat_requests": [q for q in reqs if q["proto"] in (("gopher", "http") if thorough or not sc.get("chain")
+                                                                           else ("gopher",))]
                      if any(kd.split(":")[0] in REPEAT_KINDS for _, kd in sc["faults"]) else []})
     res = impl_run_parallel(jobs, chunks=16)
     umnlib.check_ok(res)
 
     def tag_for(sc, only_dot):
         kinds = [kd.split(":")[0] for _, kd in sc["faults"]]
+        if sc.get("chain"):
+            # a child that a configured handler looks into (archive, PYG module, template, mailbox, script)
+            return "c12-inspected-child-aborts-listing"
         if only_dot:
             return "c12-dotfile-aborts-listing"
         if kinds and all(re.fullmatch(r"(open|stat)\d*fail", kd) for kd in kinds):
@@ -287,15 +403,16 @@ def run(tier):
 
     def report(key, replay, tag):
         # one replay per (defect, handler, level); the rest is counted in the evidence
+        key = tuple(k.split(":")[0] if i == 1 else k for i, k in enumerate(key))    # (not one per handler configuration)
         if key not in reported:
             reported.add(key)
             chk.violation(replay, tag=tag)
     for sc, job, r in zip(scenarios, jobs, res):
         base = "" if sc["dir"] == "/" else sc["dir"]
         only_dot = bool(sc["faults"]) and all(kd.startswith("dot-") for _, kd in sc["faults"])
-        for kind in ("umn", "dir"):
+        for kind in job["kinds"]:
             run_ = r["res"]["runs"][kind]
-            if not any(c["kind"] == "blocks" for c in run_["world"]["children"]):
+            if ":" not in kind and not any(c["kind"] == "blocks" for c in run_["world"]["children"]):
                 # (a call that never returns is outside the model's vocabulary; the oracle reports it)
                 cases.append(umnlib.listing_case(run_, kind))
                 meta.append((sc, kind))
@@ -313,7 +430,8 @@ def run(tier):
                     report((tag_, kind, "prepare"),
                                   {"what": "one unservable entry takes down the listing of its directory (handler.prepare)",
                                    "handler": kind, "faults": sc["faults"], "faulty_names": sc["faulty"],
-                                   "stat_faults": sc["stat_faults"], "dir": sc["dir"], "tree": sc["tree"],
+                                   "stat_faults": sc["stat_faults"], "call_faults": sc["call_faults"],
+                                   "handler_configuration": CHAINS.get(kind.partition(":")[2]), "dir": sc["dir"], "tree": sc["tree"],
                                    "outcome": res_.get("exc") or [e["selector"] for e in res_["entries"]]}, tag_)
             # every protocol
             for rq, o in zip(job["requests"], r["res"]["protocols"][kind]):
@@ -330,13 +448,14 @@ def run(tier):
                     report((tag_, kind, rq["proto"]),
                                   {"what": "one unservable entry takes down the listing of its directory: " + why,
                                    "handler": kind, "protocol": rq["proto"], "request_latin1": rq["data"], "tls": rq["tls"],
-                                   "faults": sc["faults"], "faulty_names": sc["faulty"], "stat_faults": sc["stat_faults"],
+                                   "faults": sc["faults"], "faulty_names": sc["faulty"], "stat_faults": sc["stat_faults"], "call_faults": sc["call_faults"],
+                                   "handler_configuration": CHAINS.get(kind.partition(":")[2]),
                                    "deleted_after_enumeration": sc["vanish"],
                                    "dir": sc["dir"], "tree": sc["tree"], "response_latin1": o["out"][:300],
                                    "exception": o["exc"], "log": o["log"]}, tag_)
             # the same request twice within the lifetime of the directory cache
             reps = r["res"].get("repeats", {}).get(kind, [])
-            for rq, pair_ in zip([q for q in job["requests"] if q["proto"] in ("gopher", "http")], reps):
+            for rq, pair_ in zip(job["repeat_requests"], reps):
                 for which, o in zip(("first", "repeated"), pair_):
                     nreq += 1
                     out = o["out"].encode("latin-1")
@@ -352,7 +471,8 @@ def run(tier):
                                {"what": "one unservable entry takes down the listing of its directory (%s request with the "
                                         "directory cache enabled): %s" % (which, why),
                                 "handler": kind, "protocol": rq["proto"], "request_latin1": rq["data"], "tls": rq["tls"],
-                                "faults": sc["faults"], "faulty_names": sc["faulty"], "stat_faults": sc["stat_faults"],
+                                "faults": sc["faults"], "faulty_names": sc["faulty"], "stat_faults": sc["stat_faults"], "call_faults": sc["call_faults"],
+                                   "handler_configuration": CHAINS.get(kind.partition(":")[2]),
                                 "deleted_after_enumeration": sc["vanish"], "cachetime": 180,
                                 "dir": sc["dir"], "tree": sc["tree"], "response_latin1": o["out"][:300],
                                 "exception": o["exc"], "log": o["log"]}, tag_)
@@ -363,7 +483,8 @@ def run(tier):
     cov["correspondence"]["mismatch_cases"] = [{"faults": meta[i][0]["faults"], "handler": meta[i][1],
                                                 "dir": meta[i][0]["dir"]} for i in mism[:10]]
     cov["oracle"] = {"protocol_requests": nreq, "failures": fails,
-                     "singles": len(scenarios) - len(pairs) - 1, "pairs": len(pairs)}
+                     "singles": len(scenarios) - len(pairs) - 1, "pairs": len(pairs),
+                     "handler_configurations": sorted(CHAINS), "configuration_scenarios": len(chscs)}
     chk.sample({"kind": "scenario", "faults": scenarios[0]["faults"], "dir": scenarios[0]["dir"],
                 "umn_prepare": res[0]["res"]["runs"]["umn"]["groups"][0]["result"].get("exc", "entries"),
                 "gopher_reply": res[0]["res"]["protocols"]["umn"][0]["out"][:120]})
@@ -379,7 +500,13 @@ def run(tier):
                    "symlink / FIFO / socket; all singles, pairs over all position pairs (2 random kind pairs each in quick, "
                    "all 64 in thorough); both directory handlers; handler.prepare under two enumeration orders + the "
                    "listing request in all 9 protocol syntaxes; outcome of prepare compared with the model inside Coq; "
-                   "oracle: reply is not the protocol's error reply and names every non-faulty entry")
+                   "oracle: reply is not the protocol's error reply and names every non-faulty entry; "
+                   "handler configurations beyond the shipped list (documented full featureset, the same + ZIP enabled, "
+                   "default + ZIP, inspecting handlers first, scripts with ZIP listed but off) x children those handlers "
+                   "look into (real archive, executable PYG module, TAL template, mailbox, script, compressed file, HTML) "
+                   "x faults (k-th open / stat failing, stat failing always, dangling, deleted after enumeration, really "
+                   "deleted right after the k-th look through the VFS, k = 1..3): oracle only (prepare + 3 protocols + "
+                   "repeated request with the directory cache), not compared with the model")
     chk.assumptions += [
         "handler list in which directories and regular files are always taken and nothing takes a path without stat "
         "result or a special file (every list shipped in conf/pygopherd.conf)",
